@@ -3,7 +3,13 @@
      H        := lower-case hex of Lib.C13_Sha256.sha256 (recomputed in the kernel, once per event)
      decrypt  := identity, parse := the runner's table  ciphertext -> expected topology, computed by
                  the runner with the Go STANDARD LIBRARY's AES-CTR (not the repo's code) and a
-                 reference parser (JSON, peer.AddrInfoFromString, threshold >= 1). *)
+                 reference parser (JSON, peer.AddrInfoFromString, threshold >= 1).
+   LARGE bodies (kilobytes to megabytes: what is hash-checked must be ALL that was served) are not
+   shown to the kernel: such an event carries a digest (Some d) computed by the runner with the Go
+   standard library (hex.DecodeString of the whole served body minus one trailing newline, then
+   crypto/sha256), and its body is a stand-in - the 64 digits of d (so the stand-in ciphertext is the
+   digest itself), or a non-hex text if the served body is not hex.  H, decrypt and parse are Section
+   variables of the model; for a stand-in H is the runner's digest instead of the kernel's SHA-256. *)
 From Coq Require Import List NArith ZArith Bool String Ascii.
 Import ListNotations.
 From SygmaV Require Export Lib.RunLib Lib.Hex Lib.C13_Sha256 Model.C13.
@@ -15,7 +21,7 @@ Record step_obs := mk_step_obs { so_code : N; so_view : view }.
 (* one call of TopologyProvider.NetworkTopology(hash): what the URL served, the runner's expected
    topology of that body, and what the call did (code 0 = topology, 1 = error, 2 = panic) *)
 Record call := mk_call { cl_hash : string; cl_fetch_ok : bool; cl_body : list N; cl_oracle : option topo;
-                         cl_code : N; cl_topo : option topo }.
+                         cl_digest : option string; cl_code : N; cl_topo : option topo }.
 
 Inductive case :=
 (* ConnectionGate over a topology: [InterceptPeerDial; InterceptSecured inbound; InterceptSecured
@@ -23,10 +29,11 @@ Inductive case :=
 | Gate (peers : list peer) (p : string) (impl : list bool)
 (* RefreshEventHandler.HandleEvents, a sequence of events from the initial topology init (init_stored:
    what the topology file holds initially - None when the file cannot be written); each event comes with the runner's expected topology for its ciphertext (the table entry) *)
-| Refresh (probes : list string) (init_stored : option topo) (init : topo) (evs : list (event * option topo))
+| Refresh (probes : list string) (init_stored : option topo) (init : topo)
+          (evs : list (event * option topo * option string))
           (impl_init : view) (impl : list step_obs)
 (* TopologyProvider.NetworkTopology(hash) directly: code 0 = topology, 1 = error, 2 = panic *)
-| Prov (hash : string) (fetch_ok : bool) (body : bytes) (oracle : option topo)
+| Prov (hash : string) (fetch_ok : bool) (body : bytes) (oracle : option topo) (digest : option string)
        (impl_code : N) (impl_topo : option topo)
 (* a history of such calls through ONE provider object: every call is judged on its own (what was
    fetched or returned earlier does not matter) *)
@@ -54,9 +61,9 @@ Fixpoint lookup {A} (k : bytes) (tb : list (bytes * A)) : option A :=
 (* per event: its ciphertext (if the body is hex), the kernel-computed hash, the expected topology *)
 Definition tables := list (bytes * (string * option topo)).
 
-Definition entry_of (body : bytes) (oracle : option topo) : tables :=
+Definition entry_of (body : bytes) (oracle : option topo) (digest : option string) : tables :=
   match hex_decode (trim_nl body) with
-  | Some ct => [(ct, (tohex (sha256 ct), oracle))]
+  | Some ct => [(ct, (match digest with Some d => d | None => tohex (sha256 ct) end, oracle))]
   | None => []
   end.
 
@@ -74,23 +81,26 @@ Section WithTables.
   Notation refresh' := (refresh (H_of tb) ident (parse_of tb)).
   Notation ann' := (announced_topo (H_of tb) ident (parse_of tb)).
 
-  Fixpoint agree_steps (probes : list string) (st : state) (evs : list (event * option topo))
+  Fixpoint agree_steps (probes : list string) (st : state) (evs : list (event * option topo * option string))
            (impl : list step_obs) : bool :=
     match evs, impl with
     | [], [] => true
-    | (ev, _) :: evs', o :: impl' =>
+    | (ev, _, _) :: evs', o :: impl' =>
         let '(st', out) := refresh' st ev in
         N.eqb (code_of out) (so_code o) && view_eqb (view_of probes st') (so_view o)
         && agree_steps probes st' evs' impl'
     | _, _ => false
     end.
 
-  Fixpoint judge_steps (probes : list string) (prev : view) (evs : list (event * option topo))
+  (* the specification, step by step: the step is one the property allows (nothing changed, or the
+     CURRENT event announced the topology now in force) and afterwards the topology file and the gate
+     name the same members *)
+  Fixpoint judge_steps (probes : list string) (prev : view) (evs : list (event * option topo * option string))
            (impl : list step_obs) : bool :=
     match evs, impl with
     | [], [] => true
-    | (ev, _) :: evs', o :: impl' =>
-        step_ok probes (ann' ev) prev (so_view o) && judge_steps probes (so_view o) evs' impl'
+    | (ev, _, _) :: evs', o :: impl' =>
+        step_spec probes (ann' ev) prev (so_view o) && judge_steps probes (so_view o) evs' impl'
     | _, _ => false
     end.
 End WithTables.
@@ -98,16 +108,17 @@ End WithTables.
 (* the provider against the model, and the specification of one call: a topology is returned only if
    it is the one the ciphertext stands for and, when a hash is demanded, the ciphertext has that hash *)
 Definition prov_agree (hash : string) (fetch_ok : bool) (body : bytes) (oracle : option topo)
-           (code : N) (t : option topo) : bool :=
-  let tb := entry_of body oracle in
+           (digest : option string) (code : N) (t : option topo) : bool :=
+  let tb := entry_of body oracle digest in
   match provider (H_of tb) ident (parse_of tb) hash fetch_ok body with
   | POk m => N.eqb code 0 && opt_topo_eqb (Some m) t
   | PErr => N.eqb code 1
   | PPanic => N.eqb code 2
   end.
 
-Definition prov_judge (hash : string) (body : bytes) (oracle : option topo) (code : N) (t : option topo) : bool :=
-  let tb := entry_of body oracle in
+Definition prov_judge (hash : string) (body : bytes) (oracle : option topo) (digest : option string)
+           (code : N) (t : option topo) : bool :=
+  let tb := entry_of body oracle digest in
   if N.eqb code 0 then
     match hex_decode (trim_nl body) with
     | Some ct => (String.eqb hash EmptyString || String.eqb (H_of tb ct) hash)
@@ -131,15 +142,15 @@ Definition verdict_of (c : case) : N :=
                | _ => false
                end)
   | Refresh probes istored init evs impl_init impl =>
-      let tb := flat_map (fun eo => entry_of (ev_body (fst eo)) (snd eo)) evs in
+      let tb := flat_map (fun eo => entry_of (ev_body (fst (fst eo))) (snd (fst eo)) (snd eo)) evs in
       let st0 := mk_state istored init (fst (load_peers (t_peers init))) in
       verdict (view_eqb (view_of probes st0) impl_init && agree_steps tb probes st0 evs impl)
               (judge_steps tb probes impl_init evs impl)
-  | Prov hash fetch_ok body oracle code t =>
-      verdict (prov_agree hash fetch_ok body oracle code t) (prov_judge hash body oracle code t)
+  | Prov hash fetch_ok body oracle dg code t =>
+      verdict (prov_agree hash fetch_ok body oracle dg code t) (prov_judge hash body oracle dg code t)
   | ProvSeq calls =>
-      verdict (forallb (fun c => prov_agree (cl_hash c) (cl_fetch_ok c) (cl_body c) (cl_oracle c) (cl_code c) (cl_topo c)) calls)
-              (forallb (fun c => prov_judge (cl_hash c) (cl_body c) (cl_oracle c) (cl_code c) (cl_topo c)) calls)
+      verdict (forallb (fun c => prov_agree (cl_hash c) (cl_fetch_ok c) (cl_body c) (cl_oracle c) (cl_digest c) (cl_code c) (cl_topo c)) calls)
+              (forallb (fun c => prov_judge (cl_hash c) (cl_body c) (cl_oracle c) (cl_digest c) (cl_code c) (cl_topo c)) calls)
   | Hosts members dialer target connected from =>
       let g := mk_topo (map (fun m => mk_peer m None) members) 1%Z in
       let m := intercept_peer_dial g target && intercept_secured g DirOutbound target
@@ -163,7 +174,7 @@ Definition tag (c : case) : N :=
                                     impl (false, v0)) in
       let panicked := existsb (fun o => N.eqb (so_code o) 1) impl in
       2 + (if changed then 1 else 0) + (if panicked then 2 else 0)
-  | Prov _ _ _ _ code _ => 6 + code
+  | Prov _ _ _ _ _ code _ => 6 + code
   | ProvSeq calls => 13 + (if existsb (fun c => N.eqb (cl_code c) 0) calls then 1 else 0)
   | Attr _ claimed _ _ => match claimed with Some _ => 10 | None => 9 end
   | Hosts _ _ _ connected _ => if connected then 12 else 11
